@@ -23,6 +23,16 @@ CHECKS = {
             "No proof about unbounded inputs.", "DESIGN.md §5 C02"),
 }
 
+CHECKS["C01"] = (MC,
+    "TLC enumeration of edit scripts (NotebookEdits.tla) concretised to real notebooks + TLC trace validation "
+    "(DiffTrace.tla) of diff_notebooks/patch_notebook and of the nbdiff --out / nbpatch -o file interface",
+    "Every pair reachable with <= 2 edit actions from six base templates (TLC-enumerated), random walks and unrelated "
+    "pairs are diffed by the real notebook differ; TLC evaluates per event: round trip with the specification's own "
+    "Patch (independent of nbdime's patch), nbdime's patch result, empty-iff-identical, and for a rotating subset the "
+    "diff/notebook read back from the files nbdiff and nbpatch wrote.",
+    "Trusted: harness/concretize.py (content tables, validated per notebook with nbformat), harness/encode.py, TLC. "
+    "Bounded/sampled input space; no proof.", "DESIGN.md §5 C01")
+
 NOT_YET = {}
 
 PROPS = [json.loads(l)["id"] for l in open(os.path.join(VERIF, "properties.jsonl"))]
